@@ -203,7 +203,11 @@ def run(cfg, sched):
     batch_size, return_as, timeout, use_with, stuck, durations, kill_at)
     sched: dict(preempt=[(pos, alt)], picks=[...])"""
     import joblib.parallel as jp
-    sim = parsim.Sim(preempt=sched.get("preempt", ()), picks=sched.get("picks", ()), stuck=cfg.get("stuck", ()))
+    if cfg.get("cb_threads", 1) > 1:
+        sim = parsim.MultiSim(n_cb=cfg["cb_threads"], preempt=sched.get("preempt", ()), picks=sched.get("picks", ()),
+                              stuck=cfg.get("stuck", ()))
+    else:
+        sim = parsim.Sim(preempt=sched.get("preempt", ()), picks=sched.get("picks", ()), stuck=cfg.get("stuck", ()))
     out = Outcome()
     out.sim = sim
     out.calls = []
